@@ -75,6 +75,19 @@ Types ==
     ShD("flags_bad_base", "BadFl", "BadFl: !flags" \o NL \o "  base: float" \o NL \o "  values: [a]" \o NL, "enum"),
     ShD("bad_field_name", "BadF", "BadF: !record" \o NL \o "  fields:" \o NL \o "    Bad_Name: int" \o NL, "name"),
     ShD("unused_type_parameter", "Unu<int>", "Unu<T>: !record" \o NL \o "  fields:" \o NL \o "    x: int" \o NL, "generic"),
+    \* ---- rules that are broken only once a generic type is instantiated
+    ShD("generic_duplicate_cases", "Either<int, int>", "Either<A, B>: [A, B]" \o NL, "union"),
+    ShD("generic_duplicate_cases_alias", "Either<int, Al1>", "Either<A, B>: [A, B]" \o NL, "union"),
+    ShD("nested_generic_duplicate_cases", "Outer<int>",
+        "Wrapper<T>: !record" \o NL \o "  fields:" \o NL \o "    value: T" \o NL \o "Either<A, B>: [A, B]" \o NL \o
+        "Outer<T>: !record" \o NL \o "  fields:" \o NL \o "    choice: Either<Wrapper<T>, Wrapper<int>>" \o NL, "union"),
+    ShD("nested_generic_duplicate_cases_vector", "OuterV<int>",
+        "WrapperV<T>: !record" \o NL \o "  fields:" \o NL \o "    value: T" \o NL \o "EitherV<A, B>: [A, B]" \o NL \o
+        "OuterV<T>: !record" \o NL \o "  fields:" \o NL \o "    choice: EitherV<WrapperV<T>*, WrapperV<int>*>" \o NL, "union"),
+    ShD("generic_alias_duplicate_cases", "OuterA<int>",
+        "EitherA<A, B>: [A, B]" \o NL \o "MidA<T>: EitherA<T, int>" \o NL \o "OuterA<T>: MidA<T>" \o NL, "union"),
+    ShD("generic_map_key_record", "Mp<Rec1>", "Mp<K>: K->int" \o NL, "mapkey"),
+    ShD("generic_nested_optional", "Opt2<int?>", "Opt2<T>: [null, T]" \o NL, ""),
     ShD("bad_computed_field", "BadC", "BadC: !record" \o NL \o "  fields:" \o NL \o "    x: int" \o NL \o "  computedFields:" \o NL \o "    c: y + 1" \o NL, "computed") }
   \cup { [n |-> "alias_duplicate_cases_def", s |-> "", y |-> "[int, Al1]", defs |-> "", bad |-> "", okAt |-> {}] }
 
